@@ -372,6 +372,8 @@ export_node (struct yaep_tree_node *n)
 	printf ("%snode %d anode %s %d", prefix, my, n->val.anode.name[0] ? n->val.anode.name : "@empty", n->val.anode.cost);
 	for (i = 0; i < k; i++) printf (" %d", kids[i]);
 	printf ("\n");
+	/* which block holds the name (one per rule in the library, shared by the nodes of the rule) */
+	if (check_reach_p) printf ("%snameblk %d %d\n", prefix, my, containing_blk ((void *) n->val.anode.name));
 	free (kids);
 	break;
       }
